@@ -197,8 +197,10 @@ func accessField(structVal reflect.Value, fieldIdx int, opts *options) (fieldInf
 		return fieldInfo{}, true, nil
 	}
 
-	// create new context, overwriting configValueHandling for all sub-operations
-	if tagOpts.cfgHandling != opts.configValueHandling {
+	// create new context, overwriting configValueHandling for all sub-operations.
+	// A field whose tag names no handling keeps the one in force (the global
+	// option given to Unpack, or the tag of an enclosing field).
+	if tagOpts.cfgHandling != cfgDefaultHandling && tagOpts.cfgHandling != opts.configValueHandling {
 		tmp := &options{}
 		*tmp = *opts
 		tmp.configValueHandling = tagOpts.cfgHandling
